@@ -366,6 +366,19 @@ def css(ctx):
                 brk = [s for s in loop.body if isinstance(s, ast.If) and any(isinstance(y, ast.Break) for y in s.body)]
                 ok = len(brk) == 1 and "keyword not in self.allowed_css_keywords" in norm(brk[0].test) and \
                     "prop.split('-')[0].lower() in ['background', 'border', 'margin', 'padding']" in " ".join(norm(f.node).split())
+        if not ok:
+            # the same arm written with a flag: F = True; for keyword in ..: if <keyword fails>: F = False; break; if F: keep
+            for t in [n for n in cfg.nodes if n.kind == "test" and isinstance(n.ast, ast.Name)]:
+                flag = t.ast.id
+                if not cfg.dominated_by(a, lambda n, lab, t=t: n is t and lab is True):
+                    continue
+                stores = [x for x in ast.walk(f.node) if isinstance(x, ast.Assign) and norm(x.targets[0]) == flag]
+                vals = sorted(norm(x.value) for x in stores)
+                falses = [x for x in stores if norm(x.value) == "False"]
+                guarded = all(any(isinstance(g, ast.If) and any(y is x for y in g.body) and
+                                  "not in self.allowed_css_keywords" in norm(g.test) for g in ast.walk(f.node)) for x in falses)
+                if vals == ["False", "True"] and guarded:
+                    ok = True
         # positively wrong: the append is reached on the false edges of *all* allow-list tests (an `else:` arm), or no
         # allow-list test dominates any append at all
         def unguarded(n, lab):
